@@ -325,7 +325,8 @@ def run_sim_class(chk, cls, scs, mons, variant=None, batch=250, tag=None):
         if "raw_commands" not in sc and k % 6 == 2:
             sc["raw_commands"] = True          # generic command classes with the command type as a plain int
         if "odd_names" not in sc and k % 5 == 3:
-            sc["odd_names"] = True             # timer names containing pattern characters ("slot[1]", "s*", "done?")
+            sc["odd_names"] = 2 if k % 10 == 8 else True   # timer names containing pattern characters ("slot[1]", "s*", "done?"),
+            #                                                 or names that only a normalisation would make equal
         if "late_config" not in sc and k % 5 == 2:
             sc["late_config"] = True           # configuration objects filled in AFTER they were handed to handler / builder
         if "nodes_first" not in sc and k % 4 == 3:
@@ -421,7 +422,9 @@ def run_sim_class(chk, cls, scs, mons, variant=None, batch=250, tag=None):
 
 def _brief(sc):
     d = {k: sc[k] for k in ("handlers", "nodes", "med", "mob", "asserts", "seed", "dur", "maxit", "drv", "script")}
-    for k in ("reuse_commands", "fresh_controllers", "odd_names", "truthy_preds", "build_twice", "poll_done", "int_numbers", "enum_names", "raw_commands", "rerun", "late_config", "nodes_first", "interloper", "poll_inside", "positional_config", "two_controllers", "cross_flags", "worker_thread", "replaced_handlers", "long_payloads", "odd_payloads", "variant", "stream"):
+    for k in ("reuse_commands", "fresh_controllers", "odd_names", "truthy_preds", "build_twice", "poll_done", "int_numbers", "enum_names", "raw_commands", "rerun", "late_config", "nodes_first", "interloper", "poll_inside", "positional_config", "two_controllers", "cross_flags", "worker_thread", "replaced_handlers", "long_payloads", "odd_payloads", "variant", "stream",
+              "ext_inside", "cb_returns", "early_controller", "late_classes", "slow_cb", "host_plugin", "tag_names", "quote_plugin",
+              "assert_names", "trace_limit", "fuel"):
         if k in sc:
             d[k] = sc[k]
     return d
